@@ -55,6 +55,9 @@ class Outcomes(object):
                 if len(r) > 2 and r[2]:
                     return r[0], r[1]  # exactly this result, even None
                 return r[0], (r[1] if r[1] is not None else {"v": 1, "id": ident})
+        if a.get("action") in ("ovf.ok", "ovf.fail"):
+            # the outcome is written into the definition itself (exhaustive decision-shape family)
+            return ("succeeded" if a["action"] == "ovf.ok" else "failed"), {"v": 1, "id": ident}
         if ident in self.overrides:
             s, r = self.overrides[ident]
             return s, (r if r is not None else {"v": 1, "id": ident})
@@ -293,6 +296,8 @@ class Run(object):
                             self.trace.append(("ack-EXC", tid, route, item, repr(ea["exc"])[:200]))
                 for r in self.offers[-len(t["actions"]):] if t["actions"] else []:
                     self.inflight.append({k: r[k] for k in ("task", "route", "item", "attempt", "loop", "uid")})
+                    if r.get("action") in ("ovf.ok", "ovf.fail"):
+                        self.inflight[-1]["action"] = r["action"]
                     if self.ack_chain == "mixed" and started_now.get(r["item"]):
                         self.inflight[-1]["started"] = True
             if not again:
